@@ -188,6 +188,9 @@ def _templates():
     add("head-head", [S("v1", "head", ["A"], n=6, npartitions=2, how="head"), S("v2", "head", ["v1"], n=5, npartitions=1, how="head")])
     add("isin-head", [S("v1", "col", ["A"], col="k"), S("v2", "isin", ["v1"], values=[1, 2]), S("v3", "head", ["v2"], n=3, npartitions=1, how="head")])
     add("partitions-elemwise", [S("v1", "binop_scalar", ["A[f,g]"], op="mul", c=2, r=False), S("v2", "partitions", ["v1"], sel=[1, 0])])
+    # D64: on a one-partition frame the predicate operands count as broadcasts
+    add("partitions-stacked-filters", [S("v1", "filter_pred", ["A"], pred=P("ne", "s", "b")), S("v2", "filter_pred", ["v1"], pred=P("le", "i", 5)), S("v3", "partitions", ["v2"], sel=[0, 0])], tags=("single",))
+    add("partitions-filter-assign", [S("v1", "filter_pred", ["A"], pred=P("gt", "g", 0)), S("v2", "assign", ["v1"], items=[["z", {"a": "f", "op": "add", "b": "g"}]]), S("v3", "partitions", ["v2"], sel=[0])], tags=("single",))
     add("partitions-red-reuse", [S("v1", "col", ["A"], col="f"), S("v2", "series_red_reuse", ["v1"], op="sub", red="min"), S("v3", "partitions", ["v2"], sel=[2])])
     add("repartition-proj", [S("v1", "repartition", ["A"], npartitions=2), S("v2", "cols", ["v1"], cols=["f"])])
     add("map_partitions-proj", [S("v1", "map_partitions", ["A"], f="add_one_numeric"), S("v2", "cols", ["v1"], cols=["f", "k"])])
@@ -264,7 +267,8 @@ def c01_cases(tier):
     ts = _templates()
     lays = LAYOUTS_A if tier == "thorough" else LAYOUTS_A[1:6]
     for ti, t in enumerate(ts):
-        for li, la in enumerate(lays):
+        tlays = lays if (tier == "thorough" or "single" not in t["tags"]) else [LAYOUTS_A[0]] + lays
+        for li, la in enumerate(tlays):
             idxs = INDEXES_A if (tier == "thorough" or (ti + li) % 3 == 0) else INDEXES_A[:1]
             for ia in idxs:
                 if la.get("known") and ia["kind"] == "int":
